@@ -1208,4 +1208,30 @@ example : Narrows [1, 2, 3] [{ rest := some [2, 3] }, {}, { rest := some [3] }] 
 example : pusherDeadline { exCfg with timeout := 5 } { deadline := some 7 } 0 = some 5 ∧
     pusherDeadline { exCfg with timeout := 5 } { deadline := some 7 } 4 = some 7 := by decide
 
+
+/-! ## glue: OTLP/gRPC status → retry loop -/
+
+/-- **the delay a gRPC backend asks for reaches the wait**: a retryable status whose `RetryInfo` carries
+`d > 0` becomes an error from which the retry loop reads the throttle delay `d`, so the wait is ≥ `d` -/
+theorem C05_grpc_throttle_honoured (code d : Nat) (hd : 0 < d) (hr : grpcRetryable code true = true) (hc : code ≠ 0)
+    (c : Cfg) (cur dur : Nat) :
+    ∃ e, grpcProcess code (some d) = some e ∧ e.isPermanent = false ∧ e.throttleDelay = some d ∧
+      d ≤ waitAfter c cur (Attempt.ofErr e dur) := by
+  refine ⟨.throttle d .leaf, ?_, by simp [Err.isPermanent, Err.find], by simp [Err.throttleDelay, Err.find], ?_⟩
+  · simp [grpcProcess, hc, hr]; omega
+  · exact C05_wait_ge_throttle c cur _ d (by simp [Attempt.ofErr, Err.throttleDelay, Err.find])
+
+/-- a non-retryable status is handed over as permanent: the loop makes no further attempt -/
+theorem C05_grpc_not_retryable_is_final (code : Nat) (ri : Option Nat) (hc : code ≠ 0) (hr : grpcRetryable code ri.isSome = false)
+    (c : Cfg) (e : Env) (now cur dur : Nat) (p : List Nat) (as : List Attempt) :
+    ∃ er, grpcProcess code ri = some er ∧ er.isPermanent = true ∧
+      (run c e now cur p (Attempt.ofErr er dur :: as)).calls.length = 1 := by
+  refine ⟨.perm .leaf, by simp [grpcProcess, hc, hr], by simp [Err.isPermanent, Err.find], ?_⟩
+  exact C05_verdict_final_head c e now cur p _ as (Or.inr (by simp [Attempt.ofErr, Err.isPermanent, Err.find]))
+
+example : (grpcProcess 14 (some 7)).map Err.throttleDelay = some (some 7) ∧ (grpcProcess 8 none).map Err.isPermanent = some true ∧
+    (grpcProcess 8 (some 0)).map Err.isPermanent = some false ∧ (grpcProcess 3 (some 5)).map Err.isPermanent = some true ∧
+    (grpcProcess 0 none).isNone = true := by decide
+
+
 end OtelVerif.C05
